@@ -211,3 +211,5 @@ for _op in OPS:
                                    'excess never decreases (unchanged except for emergency-penalty dust)' % _op,
                bounds='two positions (open / closed), three farms (two on the same LP token with the same owner), window of 10 epochs, symbolic amounts, budgets, weights and excess',
                covers=['ok'], replay=_replay(_op))(_ob(_op))
+
+from . import lockdep   # noqa: E402,F401  (locked deposits: the farm manager holds exactly the LP it records)
